@@ -100,10 +100,10 @@ template<typename T> static std::string kll_stream(std::istream& is, bool use) {
   return accept([&] { return kll_sketch<T>::deserialize(is); }, kll_readout<T>, kll_use<T>, use);
 }
 
-enum QK { Q_EMPTY, Q_SINGLE, Q_FEW, Q_EXACT, Q_EST, Q_MERGED };
+enum QK { Q_EMPTY, Q_SINGLE, Q_FEW, Q_EXACT, Q_EST, Q_MERGED, Q_BIGCFG };   // BIGCFG: large nominal k, tiny content
 
 template<typename T> static Bytes kll_image(Rng& r, bool T_, int kind) {
-  const uint16_t k = static_cast<uint16_t>(r.range(8, T_ ? 32 : 20));
+  const uint16_t k = static_cast<uint16_t>(kind == Q_BIGCFG ? r.range(20000, 65535) : r.range(8, T_ ? 32 : 20));
   if (kind == Q_MERGED) {
     // a merge result whose level 0 is empty (levels[0] == levels[1] in the image); a few attempts, else whatever came last
     Bytes last;
@@ -125,6 +125,7 @@ template<typename T> static Bytes kll_image(Rng& r, bool T_, int kind) {
     case Q_EMPTY: n = 0; break;
     case Q_SINGLE: n = 1; break;
     case Q_FEW: n = static_cast<uint64_t>(r.range(2, k / 2)); break;
+    case Q_BIGCFG: n = static_cast<uint64_t>(r.range(3, 12)); break;
     default: n = static_cast<uint64_t>(r.range(4 * k, 12 * k)); break;
   }
   for (uint64_t i = 0; i < n; ++i) s.update(Gen<T>::make(r));
@@ -152,7 +153,7 @@ template<typename T> static std::string req_stream(std::istream& is, bool use) {
 }
 // hra: 0 = LRA, 1 = HRA, 2 = random
 template<typename T> static Bytes req_image(Rng& r, bool T_, int kind, int hra_sel) {
-  const uint16_t k = static_cast<uint16_t>(2 * r.range(2, T_ ? 8 : 6));
+  const uint16_t k = static_cast<uint16_t>(kind == Q_BIGCFG ? 2 * r.range(256, 512) : 2 * r.range(2, T_ ? 8 : 6));
   const bool hra = hra_sel == 2 ? r.coin() : hra_sel == 1;
   req_sketch<T> s(k, hra);
   uint64_t n = 0;
@@ -161,6 +162,7 @@ template<typename T> static Bytes req_image(Rng& r, bool T_, int kind, int hra_s
     case Q_SINGLE: n = 1; break;
     case Q_FEW: n = static_cast<uint64_t>(r.range(2, 4)); break;
     case Q_EXACT: n = static_cast<uint64_t>(r.range(5, 2 * k)); break;
+    case Q_BIGCFG: n = static_cast<uint64_t>(r.range(5, 20)); break;
     default: n = static_cast<uint64_t>(r.range(20 * k, 60 * k)); break;
   }
   for (uint64_t i = 0; i < n; ++i) s.update(Gen<T>::make(r));
@@ -184,13 +186,14 @@ template<typename T> static std::string cq_stream(std::istream& is, bool use) {
   return accept([&] { return quantiles_sketch<T>::deserialize(is); }, cq_readout<T>, cq_use<T>, use);
 }
 template<typename T> static Bytes cq_image(Rng& r, bool T_, int kind) {
-  const uint16_t k = static_cast<uint16_t>(1u << r.range(2, T_ ? 5 : 4));
+  const uint16_t k = static_cast<uint16_t>(1u << (kind == Q_BIGCFG ? r.range(13, 15) : r.range(2, T_ ? 5 : 4)));
   quantiles_sketch<T> s(k);
   uint64_t n = 0;
   switch (kind) {
     case Q_EMPTY: n = 0; break;
     case Q_SINGLE: n = 1; break;
     case Q_FEW: n = static_cast<uint64_t>(r.range(2, 2 * k - 1)); break;
+    case Q_BIGCFG: n = static_cast<uint64_t>(r.range(3, 10)); break;
     default: n = static_cast<uint64_t>(r.range(2 * k * 3, 2 * k * 15)); break;
   }
   for (uint64_t i = 0; i < n; ++i) s.update(Gen<T>::make(r));
@@ -203,7 +206,7 @@ template<typename T> static void add_family(std::vector<std::vector<Target>>& fa
   struct KN { const char* name; int k; };
   {
     std::vector<Target> f;
-    for (KN k : {KN{"empty", Q_EMPTY}, KN{"single", Q_SINGLE}, KN{"few", Q_FEW}, KN{"estimation", Q_EST}, KN{"merged_level0_empty", Q_MERGED}}) {
+    for (KN k : {KN{"empty", Q_EMPTY}, KN{"single", Q_SINGLE}, KN{"few", Q_FEW}, KN{"estimation", Q_EST}, KN{"merged_level0_empty", Q_MERGED}, KN{"bigcfg_few", Q_BIGCFG}}) {
       const int kk = k.k;
       BuildFn b = [kk](Rng& r, bool T_) { return kll_image<T>(r, T_, kk); };
       f.push_back({kll_name, k.name, "bytes", b, bytes_path(kll_bytes<T>)});
@@ -215,7 +218,7 @@ template<typename T> static void add_family(std::vector<std::vector<Target>>& fa
     struct RN { const char* name; int k; int hra; };
     std::vector<Target> f;
     for (RN k : {RN{"empty", Q_EMPTY, 2}, RN{"single", Q_SINGLE, 2}, RN{"few_raw_hra", Q_FEW, 1}, RN{"few_raw_lra", Q_FEW, 0}, RN{"exact_hra", Q_EXACT, 1},
-                 RN{"exact_lra", Q_EXACT, 0}, RN{"estimation_hra", Q_EST, 1}, RN{"estimation_lra", Q_EST, 0}}) {
+                 RN{"exact_lra", Q_EXACT, 0}, RN{"estimation_hra", Q_EST, 1}, RN{"estimation_lra", Q_EST, 0}, RN{"bigcfg_few", Q_BIGCFG, 2}}) {
       const int kk = k.k, hh = k.hra;
       BuildFn b = [kk, hh](Rng& r, bool T_) { return req_image<T>(r, T_, kk, hh); };
       // REQ preamble = preamble_ints (first byte: 2, or 4 when n follows the 8 fixed bytes) * 4; min/max items and the compactor
@@ -228,7 +231,7 @@ template<typename T> static void add_family(std::vector<std::vector<Target>>& fa
   }
   {
     std::vector<Target> f;
-    for (KN k : {KN{"empty", Q_EMPTY}, KN{"single", Q_SINGLE}, KN{"few", Q_FEW}, KN{"estimation", Q_EST}}) {
+    for (KN k : {KN{"empty", Q_EMPTY}, KN{"single", Q_SINGLE}, KN{"few", Q_FEW}, KN{"estimation", Q_EST}, KN{"bigcfg_few", Q_BIGCFG}}) {
       const int kk = k.k;
       BuildFn b = [kk](Rng& r, bool T_) { return cq_image<T>(r, T_, kk); };
       f.push_back({cq_name, k.name, "bytes", b, bytes_path(cq_bytes<T>)});
